@@ -84,6 +84,10 @@ def _load_parametrized_tests(obj):
         parametrized_test.name = parametrized_test_name
         parametrized_test.description = parametrized_test_description
         parametrized_test.parameters = parameters
+        # every expansion gets a rank of its own, between the rank of the declaration and the next declared one, so that
+        # the order of the expansions in the report is the order of the parameter sets, not the order in which the
+        # results happen to arrive when the tests run in parallel
+        parametrized_test.rank = test.rank + idx / (idx + 1.0)
 
         yield parametrized_test
 
